@@ -98,6 +98,18 @@ fn expected_path(pts: &[(f64, f64)], on: &[bool], ends: &[usize]) -> Option<Vec<
     Some(out)
 }
 
+/// Largest magnitude the scaler's 16.16 working values may reach for this
+/// glyph: |coordinate| + sum over tuples of the largest |delta|.
+pub fn magnitude_bound(coords: &[(i32, i32)], var: &RawGlyphVar) -> i64 {
+    let cmax = coords.iter().map(|c| c.0.abs().max(c.1.abs())).max().unwrap_or(0) as i64;
+    let d: i64 = var
+        .tuples
+        .iter()
+        .map(|t| t.dx.iter().chain(t.dy.iter()).map(|v| (*v as i64).abs()).max().unwrap_or(0))
+        .sum();
+    cmax + d
+}
+
 pub struct RefOutline {
     pub pts: Vec<(f64, f64)>,
     pub eps_fixed: f64,
@@ -299,6 +311,11 @@ pub fn check_draw_font(
         if var.tuples.is_empty() {
             ctx.count("draw_glyph_without_variations", 1);
         }
+        if magnitude_bound(&coords, &var) > 15000 {
+            // working values could leave the 16.16 range of the scaler
+            ctx.count("draw_glyph_extreme_magnitude_skipped", 1);
+            continue;
+        }
         let Some(og) = outlines.get(GlyphId::new(gid)) else {
             ctx.count("draw_glyph_no_outline", 1);
             continue;
@@ -312,25 +329,29 @@ pub fn check_draw_font(
                     continue;
                 }
             };
-            // translation by the varied phantom point 0
-            let shift = r.pts[n_real].0;
-            let shifted: Vec<(f64, f64)> = r.pts[..n_real].iter().map(|p| (p.0 - shift, p.1)).collect();
-            // the FreeType-style scaler rounds the phantom delta separately:
-            // a second independent rounding step on x when pp0 moves
-            let pp0_moves = (shift - coords[n_real].0 as f64).abs() > 1e-12;
+            // Translation to the glyph origin (phantom point 0). As
+            // implemented: the FreeType-style scaler uses the *varied*
+            // phantom point (rounded separately: a second rounding step on x
+            // when pp0 moves), the HarfBuzz-style scaler the default one.
+            let shift_ft = r.pts[n_real].0;
+            let shift_hb = coords[n_real].0 as f64;
+            let pp0_moves = (shift_ft - shift_hb).abs() > 1e-12;
             let k = if pp0_moves { 2.0 } else { 1.0 };
             if pp0_moves {
                 ctx.count("draw_locations_with_moving_origin", 1);
             }
-            let Some(expected) = expected_path(&shifted, &on, &ends) else {
+            let shifted_ft: Vec<(f64, f64)> = r.pts[..n_real].iter().map(|p| (p.0 - shift_ft, p.1)).collect();
+            let shifted_hb: Vec<(f64, f64)> = r.pts[..n_real].iter().map(|p| (p.0 - shift_hb, p.1)).collect();
+            let (Some(expected_ft), Some(expected_hb)) = (expected_path(&shifted_ft, &on, &ends), expected_path(&shifted_hb, &on, &ends)) else {
                 ctx.count("draw_glyph_starts_off_curve_skipped", 1);
                 break;
             };
             let nc: Vec<NormalizedCoord> = loc.iter().map(|b| NormalizedCoord::from_bits(*b)).collect();
             for (style, style_name, tol) in [
                 (skrifa::outline::pen::PathStyle::FreeType, "freetype", k * (0.5 + r.eps_fixed)),
-                (skrifa::outline::pen::PathStyle::HarfBuzz, "harfbuzz", k * r.eps_f32),
+                (skrifa::outline::pen::PathStyle::HarfBuzz, "harfbuzz", r.eps_f32),
             ] {
+                let expected = if style_name == "freetype" { &expected_ft } else { &expected_hb };
                 ctx.eval();
                 let og2 = og.clone();
                 let nc2 = nc.clone();
@@ -362,7 +383,7 @@ pub fn check_draw_font(
                     }
                     Ok(Ok(c)) => c,
                 };
-                if cmds.len() != expected.len() || cmds.iter().zip(&expected).any(|(a, (b, _))| std::mem::discriminant(a) != std::mem::discriminant(b)) {
+                if cmds.len() != expected.len() || cmds.iter().zip(expected).any(|(a, (b, _))| std::mem::discriminant(a) != std::mem::discriminant(b)) {
                     ctx.count("draw_structure_mismatch", 1);
                     if strict_errors {
                         ctx.violation(
@@ -382,7 +403,7 @@ pub fn check_draw_font(
                         *worst_at = k;
                     }
                 };
-                for (k, (got, (exp, mid))) in cmds.iter().zip(&expected).enumerate() {
+                for (k, (got, (exp, mid))) in cmds.iter().zip(expected).enumerate() {
                     let slack = if *mid { 0.02 } else { 0.0 };
                     match (got, exp) {
                         (Cmd::Move(a, b), Cmd::Move(c, d)) | (Cmd::Line(a, b), Cmd::Line(c, d)) => {
